@@ -203,6 +203,9 @@ def main(argv=None):
         exit_code = 2
         for r in inconclusive[:5]:
             lines.append("INCONCLUSIVE property=%s reason=%s" % (pid, r.replace("\n", " ")[:500]))
+    elif inconclusive:
+        for r in inconclusive[:5]:
+            lines.append("NOTE incomplete observation: %s" % r.replace("\n", " ")[:500])
 
     wall = round(time.time() - t0, 2)
     verdict = {0: "held on what was observed", 1: "VIOLATED", 2: "inconclusive"}[exit_code]
